@@ -22,6 +22,7 @@ Conventions (the "alias table", trusted, validated by the dynamic correspondence
   * callables received as parameters / local closures are assumed not to write their arguments.
 """
 import ast
+from . import srcnorm as _srcnorm
 import os
 import re
 from .core import REPO
@@ -153,7 +154,7 @@ class Source:
                 path = os.path.join(self.repo, rel, '__init__.py')
             if not os.path.exists(path):
                 raise Unsupported(f'module {mod} not found in {self.repo}')
-            tree = ast.parse(open(path).read())
+            tree = _srcnorm.parse_file(path)
             self.imports[mod] = {}
             self.consts[mod] = set()
             for top in tree.body:
